@@ -83,6 +83,7 @@ type retRec struct {
 	heap *heapState
 	pos  token.Pos
 	blk  *ssa.BasicBlock
+	dyn  []types.Type
 }
 
 type deferRec struct {
@@ -472,8 +473,7 @@ func (f *frame) runLoop(li *loopInfo, order []*ssa.BasicBlock) {
 	if spec != nil {
 		env := f.loopEnv(li, entryVals, be.heap)
 		for i, inv := range spec.Invariants {
-			g := f.evalClause(env, inv)
-			c.oblige("invariant-entry", fmt.Sprintf("%s.inv%d@entry", lname, i+1), be.reach, g, f.pos(h.Instrs[0].Pos()), inv.Text)
+			f.obligeClause("invariant-entry", fmt.Sprintf("%s.inv%d@entry", lname, i+1), env, inv, be.reach, f.pos(h.Instrs[0].Pos()), false)
 		}
 	}
 	// 2. dry run to find what the loop writes
@@ -564,8 +564,7 @@ func (f *frame) runLoop(li *loopInfo, order []*ssa.BasicBlock) {
 		}
 		env := f.loopEnv(li, backVals, es.heap)
 		for j, inv := range spec.Invariants {
-			g := f.evalClause(env, inv)
-			c.oblige("invariant-step", fmt.Sprintf("%s.inv%d@back%d", lname, j+1, k.from.Index), es.cond, g, f.pos(lastPos(k.from)), inv.Text)
+			f.obligeClause("invariant-step", fmt.Sprintf("%s.inv%d@back%d", lname, j+1, k.from.Index), env, inv, es.cond, f.pos(lastPos(k.from)), false)
 		}
 		if spec.Decreases != nil {
 			v1 := f.evalSpec(env, spec.Decreases.E).T
